@@ -17,6 +17,8 @@ FLAVOURS = {
     1: dict(name='str-o7', ids=['b', 'a', 'c', 'd'], z='z', origin=7),
     2: dict(name='int10-o-3', ids=[12, 10, 11, 13], z=19, origin=-3),
     3: dict(name='tuple-o100', ids=[(1, 'x'), (0, 'y'), (2, 'x'), (3, 'w')], z=(9, 'q'), origin=100),
+    # non-ASCII string ids: only used by the file I/O properties (C09, C10)
+    4: dict(name='str-nonascii-o7', ids=['\u00e9', 'a', '\u00fc', 'd'], z='z', origin=7),
 }
 
 # node-attribute payloads (index 0 = none); nested mutables on purpose (C06/C11/C16)
